@@ -164,6 +164,7 @@ func RunC01(c *Ctx, r *Report) {
 	c.headerArmRules(r, prefix, a)
 	// rule 5: inner chain linkage
 	c.innerChainRules(r, prefix, a)
+	c.protectIntactOnFailureRule(r, prefix+"protect.message-intact-on-failure", a)
 	// the header and the inner payload chain pass through the plain codec on both ends
 	c.plainCodecRules(r, prefix+"codec.")
 }
@@ -417,7 +418,7 @@ func (c *Ctx) innerChainRules(r *Report, prefix string, a *ikeAnchors) {
 		if constEdge >= 0 && typeEdge >= 0 {
 			// the const edge must come from the len == 0 branch
 			pb := phi.Block().Preds[constEdge]
-			facts := ef.FactsAt(pb)
+			facts := append(append([]Fact{}, ef.FactsAt(pb)...), ef.edgeFacts(pb, phi.Block())...)
 			// some fact len(x) == 0 / <= 0
 			for _, ft := range facts {
 				if !ft.NE && len(ft.L.T) == 1 && ft.L.C == 0 {
